@@ -20,6 +20,22 @@ def schedules_from_model(ctx, cfg, name, maxattempts, closeconn=True, fallback=T
     return out, nstates, len(edges)
 
 
+def schedules_from_simulation(ctx, n, maxattempts=7):
+    """Random behaviours of the two-start model (tlc -simulate) as replay schedules."""
+    r = ctx.tlc("ClientSim", "ClientSim.cfg", workers=1, heap_gb=6, timeout=1200,
+                extra=("-simulate", "num=%d" % n, "-depth", "62", "-seed", str(ctx.seed)))
+    out = []
+    for ln in r["out"].splitlines():
+        if ln.startswith('"HIST '):
+            steps = json.loads(json.loads(ln)[5:])
+            if steps:
+                out.append({"steps": steps, "maxattempts": maxattempts, "closeconn": True, "fallback": True})
+    m = re.findall(r"The number of states generated: (\d+)", r["out"])
+    if not out:
+        raise vlib.Inconclusive("simulation produced no behaviours:\n" + r["out"][-1500:])
+    return out, int(m[-1]) if m else 0
+
+
 MODES = {
     "C10": "every started transaction completes exactly once",
     "C11": "retransmissions are bit-identical, bounded and on schedule",
@@ -54,6 +70,9 @@ def run(ctx, mode):
             s, ns, ne = schedules_from_model(ctx, cfg, name, ma, closeconn=cc, fallback=fb, sample=smp)
             stats[cfg] = {"states": ns, "edges": ne, "replayed": len(s)}
             scheds += s
+        sim, nsimstates = schedules_from_simulation(ctx, 1500 if quick else 20000)
+        stats["ClientSim.cfg"] = {"behaviours": len(sim), "states_visited": nsimstates}
+        scheds += sim
         sizes = [20, 20, 20, 1500, 1501, 2048, 2049, 4096, 65535]
         rnd = random.Random(ctx.seed)
         for i, s in enumerate(scheds):
